@@ -16,3 +16,17 @@ package syntax
 //@   requires prFile(f)
 //@   callback Format=0
 //@   ensures [C08] [C18] @always: tlen() == old(tlen()) + 1 && targ("Format", 0, old(tlen())) == f && result == tres("Format", old(tlen()))
+//
+// The include callback of the recursive loader: the path of an included file is the include text joined
+// to the DIRECTORY OF THE INCLUDING FILE (not of the root journal, not the working directory); other
+// directives start nothing. (The loader itself - goroutines, channels, errgroup - is outside the
+// verified subset; this closure is its only sequential decision.)
+//@ func parseRec$1
+//@   requires inText(d.Range) && okDirective(d)
+//@   modifies *
+//@   callback Dir=0
+//@   callback Join=0
+//@   callback Go=0
+//@   ensures [C05] @relative: typeIs(d.Directive, "directives.Include") ==> tlen() == old(tlen()) + 3
+//@        && targ("Dir", 0, old(tlen())) == file && len(targ("Join", 0, old(tlen()) + 1)) == 2 && targ("Join", 0, old(tlen()) + 1)[0] == tres("Dir", old(tlen()))
+//@   ensures [C05] @others: !typeIs(d.Directive, "directives.Include") ==> tlen() == old(tlen())
